@@ -32,6 +32,8 @@ def _op(o) -> str:
         return ".acq"
     if o == "rel":
         return ".rel"
+    if o == "ext":
+        return ".ext"
     if isinstance(o, (list, tuple)) and o[0] in ("wait", "spawn"):
         return f".{o[0]} {int(o[1])}"
     return ".work"
